@@ -1,11 +1,193 @@
-(* C12 — canonical encodings are bijective (ABI canonical CBOR core). *)
+(* C12 — canonical encodings are bijective: the ABI canonical CBOR value codec
+   (crates/echo-wasm-abi/src/canonical.rs, modelled in Model/Cbor.v).
+   Only property theorems live here: each is closed by [exact], pinned by
+   [Check ... : statement] and followed by [Print Assumptions]. *)
 From Coq Require Import List NArith ZArith.
-From Echo Require Import Base.Bytes Model.Cbor Proofs.CborProofs.
+From Echo Require Import Base.Bytes Model.Cbor Proofs.CborFloatProofs Proofs.CborProofs.
 Import ListNotations.
 Open Scope N_scope.
 
-Theorem cbor_canonical_refuted :
-  exists b v, wf_bytes b = true /\ decode b = Ok v /\ enc v <> Ok b.
-Proof. exact canonical_refuted_f16_nan. Qed.
-Check cbor_canonical_refuted : exists b v, wf_bytes b = true /\ decode b = Ok v /\ enc v <> Ok b.
-Print Assumptions cbor_canonical_refuted.
+(* decode . encode = norm: every well-formed value (any ciborium Value without tags whose
+   map keys have distinct encodings, i.e. whenever encode_value succeeds) decodes back to its
+   normal form (integral floats in [-2^64, 2^64) as integers, NaN as the canonical NaN, map
+   entries in encoded-key order). *)
+Theorem cbor_roundtrip : forall v b,
+  wf_value v = true -> enc v = Ok b -> decode b = Ok (norm v).
+Proof. exact cbor_roundtrip_core. Qed.
+Check cbor_roundtrip : forall v b,
+  wf_value v = true -> enc v = Ok b -> decode b = Ok (norm v).
+Print Assumptions cbor_roundtrip.
+
+(* accepted => canonical, for EVERY byte string: whatever decode_value accepts re-encodes to
+   exactly the same bytes. *)
+Theorem cbor_canonical : forall b v,
+  wf_bytes b = true -> decode b = Ok v -> enc v = Ok b.
+Proof. exact cbor_canonical_core. Qed.
+Check cbor_canonical : forall b v,
+  wf_bytes b = true -> decode b = Ok v -> enc v = Ok b.
+Print Assumptions cbor_canonical.
+
+(* one value, one encoding: two accepted byte strings with the same value are equal, so a
+   content hash over accepted bytes identifies the value. *)
+Theorem cbor_decode_injective : forall b1 b2 v,
+  wf_bytes b1 = true -> wf_bytes b2 = true -> decode b1 = Ok v -> decode b2 = Ok v -> b1 = b2.
+Proof. exact cbor_decode_injective_core. Qed.
+Check cbor_decode_injective : forall b1 b2 v,
+  wf_bytes b1 = true -> wf_bytes b2 = true -> decode b1 = Ok v -> decode b2 = Ok v -> b1 = b2.
+Print Assumptions cbor_decode_injective.
+
+(* every other spelling is rejected: a byte string different from THE encoding of v never decodes to v *)
+Theorem cbor_noncanonical_rejected : forall v b b',
+  wf_value v = true -> enc v = Ok b -> wf_bytes b' = true -> b' <> b -> decode b' <> Ok (norm v).
+Proof. exact noncanonical_rejected. Qed.
+Check cbor_noncanonical_rejected : forall v b b',
+  wf_value v = true -> enc v = Ok b -> wf_bytes b' = true -> b' <> b -> decode b' <> Ok (norm v).
+Print Assumptions cbor_noncanonical_rejected.
+
+(* what the decoder returns is a well-formed value in normal form (no integral floats in integer
+   range, only the canonical NaN, map entries in encoded-key order) *)
+Theorem cbor_decode_normal : forall b v,
+  wf_bytes b = true -> decode b = Ok v -> wf_value v = true /\ norm v = v.
+Proof. intros b v W D. split; [exact (decode_output_wf b v W D)|exact (decode_output_normal b v W D)]. Qed.
+Check cbor_decode_normal : forall b v,
+  wf_bytes b = true -> decode b = Ok v -> wf_value v = true /\ norm v = v.
+Print Assumptions cbor_decode_normal.
+
+(* the encoder emits bytes *)
+Theorem cbor_enc_wf : forall v b, wf_value v = true -> enc v = Ok b -> wf_bytes b = true.
+Proof. exact enc_wf. Qed.
+Check cbor_enc_wf : forall v b, wf_value v = true -> enc v = Ok b -> wf_bytes b = true.
+Print Assumptions cbor_enc_wf.
+
+(* rejection per non-canonical class *)
+Theorem cbor_reject_trailing : forall b v x xs,
+  wf_bytes b = true -> decode b = Ok v -> decode (b ++ x :: xs) = Err ETrailing.
+Proof. exact reject_trailing. Qed.
+Check cbor_reject_trailing : forall b v x xs,
+  wf_bytes b = true -> decode b = Ok v -> decode (b ++ x :: xs) = Err ETrailing.
+Print Assumptions cbor_reject_trailing.
+
+Theorem cbor_reject_tag : forall b0 r, 192 <= b0 < 224 -> decode (b0 :: r) = Err ETag.
+Proof. exact reject_tag. Qed.
+Check cbor_reject_tag : forall b0 r, 192 <= b0 < 224 -> decode (b0 :: r) = Err ETag.
+Print Assumptions cbor_reject_tag.
+
+Theorem cbor_reject_indefinite : forall b0 r,
+  In b0 [0x1f; 0x3f; 0x5f; 0x7f; 0x9f; 0xbf; 0xff] -> decode (b0 :: r) = Err EIndefinite.
+Proof. exact reject_indefinite. Qed.
+Check cbor_reject_indefinite : forall b0 r,
+  In b0 [0x1f; 0x3f; 0x5f; 0x7f; 0x9f; 0xbf; 0xff] -> decode (b0 :: r) = Err EIndefinite.
+Print Assumptions cbor_reject_indefinite.
+
+(* integers and the lengths of byte strings, text, arrays and maps spelled wider than necessary *)
+Theorem cbor_reject_nonminimal_head : forall major w n rest,
+  major < 6 -> In w [1%nat; 2%nat; 4%nat; 8%nat] -> n <= narrow_limit w ->
+  decode ((major * 32 + wide_info w) :: be_bytes w n ++ rest) = Err ENonCanonInt.
+Proof. exact reject_nonminimal_head. Qed.
+Check cbor_reject_nonminimal_head : forall major w n rest,
+  major < 6 -> In w [1%nat; 2%nat; 4%nat; 8%nat] -> n <= narrow_limit w ->
+  decode ((major * 32 + wide_info w) :: be_bytes w n ++ rest) = Err ENonCanonInt.
+Print Assumptions cbor_reject_nonminimal_head.
+
+Theorem cbor_reject_f16_nan_payload : forall h rest,
+  h < 65536 -> f64_is_nan (widen16 h) = true -> h <> 0x7e00 ->
+  decode (0xf9 :: be_bytes 2 h ++ rest) = Err ENonCanonFloat.
+Proof. exact reject_f16_nan_payload. Qed.
+Check cbor_reject_f16_nan_payload : forall h rest,
+  h < 65536 -> f64_is_nan (widen16 h) = true -> h <> 0x7e00 ->
+  decode (0xf9 :: be_bytes 2 h ++ rest) = Err ENonCanonFloat.
+Print Assumptions cbor_reject_f16_nan_payload.
+
+Theorem cbor_reject_integral_float : forall b z rest,
+  b < 2 ^ 64 -> f64_to_int b = Some z -> decode (0xfb :: be_bytes 8 b ++ rest) = Err EFloatShouldBeInt.
+Proof. exact reject_integral_float_f64. Qed.
+Check cbor_reject_integral_float : forall b z rest,
+  b < 2 ^ 64 -> f64_to_int b = Some z -> decode (0xfb :: be_bytes 8 b ++ rest) = Err EFloatShouldBeInt.
+Print Assumptions cbor_reject_integral_float.
+
+Theorem cbor_reject_wide_float64 : forall b rest,
+  b < 2 ^ 64 -> (f64_is_nan b = true \/ narrow16 b <> None \/ narrow32 b <> None) ->
+  exists e, decode (0xfb :: be_bytes 8 b ++ rest) = Err e /\ (e = ENonCanonFloat \/ e = EFloatShouldBeInt).
+Proof. exact reject_wide_float_f64. Qed.
+Check cbor_reject_wide_float64 : forall b rest,
+  b < 2 ^ 64 -> (f64_is_nan b = true \/ narrow16 b <> None \/ narrow32 b <> None) ->
+  exists e, decode (0xfb :: be_bytes 8 b ++ rest) = Err e /\ (e = ENonCanonFloat \/ e = EFloatShouldBeInt).
+Print Assumptions cbor_reject_wide_float64.
+
+Theorem cbor_reject_wide_float32 : forall s rest,
+  s < 4294967296 -> (f64_is_nan (widen32 s) = true \/ narrow16 (widen32 s) <> None) ->
+  exists e, decode (0xfa :: be_bytes 4 s ++ rest) = Err e /\ (e = ENonCanonFloat \/ e = EFloatShouldBeInt).
+Proof. exact reject_wide_float_f32. Qed.
+Check cbor_reject_wide_float32 : forall s rest,
+  s < 4294967296 -> (f64_is_nan (widen32 s) = true \/ narrow16 (widen32 s) <> None) ->
+  exists e, decode (0xfa :: be_bytes 4 s ++ rest) = Err e /\ (e = ENonCanonFloat \/ e = EFloatShouldBeInt).
+Print Assumptions cbor_reject_wide_float32.
+
+(* the model's width selection is exact representability (what round-then-compare computes) *)
+Theorem narrow16_exact : forall b h, b < 2 ^ 64 ->
+  (narrow16 b = Some h <-> h < 65536 /\ widen16 h = b /\ f64_is_nan b = false).
+Proof. exact narrow16_exact_core. Qed.
+Check narrow16_exact : forall b h, b < 2 ^ 64 ->
+  (narrow16 b = Some h <-> h < 65536 /\ widen16 h = b /\ f64_is_nan b = false).
+Print Assumptions narrow16_exact.
+
+Theorem narrow32_exact : forall b s, b < 2 ^ 64 ->
+  (narrow32 b = Some s <-> s < 4294967296 /\ widen32 s = b /\ f64_is_nan b = false).
+Proof. exact narrow32_exact_core. Qed.
+Check narrow32_exact : forall b s, b < 2 ^ 64 ->
+  (narrow32 b = Some s <-> s < 4294967296 /\ widen32 s = b /\ f64_is_nan b = false).
+Print Assumptions narrow32_exact.
+
+(* the decoder model is total without its fuel: [EFuel] is unreachable *)
+Theorem cbor_decode_never_out_of_fuel : forall b, wf_bytes b = true -> decode b <> Err EFuel.
+Proof. exact decode_never_out_of_fuel. Qed.
+Check cbor_decode_never_out_of_fuel : forall b, wf_bytes b = true -> decode b <> Err EFuel.
+Print Assumptions cbor_decode_never_out_of_fuel.
+
+(* Non-vacuity: a nested value with every kind of node, an unsorted map and an integral float
+   meets the hypotheses; its encoding is accepted and is a fixpoint of decode-then-encode. *)
+Example c12_nonvacuous :
+  let v := VArray [VInt 5; VInt (-18446744073709551616)%Z; VFloat 0x3ff8000000000000; VFloat 0x4008000000000000;
+                   VFloat 0x43f0000000000000; VFloat 0x7ff8000000000001; VText [104; 195; 169];
+                   VBytes [0; 255]; VBool true; VNull;
+                   VMap [(VText [98], VNull); (VInt 1, VArray []); (VFloat 0x3ff0000000000001, VInt 2)]] in
+  wf_value v = true /\
+  exists b, enc v = Ok b /\ wf_bytes b = true /\ decode b = Ok (norm v) /\ norm v <> v /\ enc (norm v) = Ok b.
+Proof.
+  cbv zeta. split; [vm_compute; reflexivity|].
+  eexists. split; [vm_compute; reflexivity|]. split; [vm_compute; reflexivity|].
+  split; [vm_compute; reflexivity|]. split; [vm_compute; discriminate|vm_compute; reflexivity].
+Qed.
+
+(* The three defects found while building this check (fixed in /repo: f8fd569, 35fff59,
+   50eacdd) stay pinned as regression examples of the model of the fixed code. *)
+Example f16_nan_payload_now_rejected :
+  decode [0xf9; 0x7e; 0x01] = Err ENonCanonFloat /\ decode [0xf9; 0xfe; 0x00] = Err ENonCanonFloat /\
+  decode [0xf9; 0x7c; 0x01] = Err ENonCanonFloat /\ decode [0xf9; 0x7e; 0x00] = Ok (VFloat CANON_NAN).
+Proof. vm_compute. repeat split. Qed.
+
+Example int_below_i64_now_round_trips :
+  enc (VInt (-18446744073709551616)%Z) = Ok [0x3b; 255; 255; 255; 255; 255; 255; 255; 255] /\
+  decode [0x3b; 255; 255; 255; 255; 255; 255; 255; 255] = Ok (VInt (-18446744073709551616)%Z) /\
+  decode [0x3b; 128; 0; 0; 0; 0; 0; 0; 0] = Ok (VInt (-9223372036854775809)%Z).
+Proof. vm_compute. repeat split. Qed.
+
+Example big_integral_float_now_round_trips :
+  enc (VFloat 0x43f0000000000000) = Ok [0xfa; 0x5f; 0x80; 0; 0] /\            (* 2^64 stays a float *)
+  decode [0xfa; 0x5f; 0x80; 0; 0] = Ok (VFloat 0x43f0000000000000) /\
+  enc (VFloat 0x4400000000200000) = Ok [0xfb; 0x44; 0; 0; 0; 0; 0x20; 0; 0] /\
+  decode [0xfb; 0x44; 0; 0; 0; 0; 0x20; 0; 0] = Ok (VFloat 0x4400000000200000) /\
+  enc (VFloat 0xc3f0000000000000) = Ok [0x3b; 255; 255; 255; 255; 255; 255; 255; 255].   (* -2^64 is an integer *)
+Proof. vm_compute. repeat split. Qed.
+
+(* unsorted / duplicate map keys, RFC 7049 length-first order, non-minimal heads, wide floats *)
+Example noncanonical_classes_rejected :
+  decode [0xa2; 0x02; 0xf6; 0x01; 0xf6] = Err EMapKeyOrder /\
+  decode [0xa2; 0x01; 0xf6; 0x01; 0xf6] = Err EMapKeyDup /\
+  decode [0xa2; 0x18; 0x18; 0xf6; 0x20; 0xf6] = Ok (VMap [(VInt 24, VNull); (VInt (-1), VNull)]) /\  (* bytewise, not length-first *)
+  decode [0xa2; 0x20; 0xf6; 0x18; 0x18; 0xf6] = Err EMapKeyOrder /\
+  decode [0x18; 0x17] = Err ENonCanonInt /\ decode [0x58; 0x01; 0x00] = Err ENonCanonInt /\
+  decode [0xfa; 0x3f; 0xc0; 0; 0] = Err ENonCanonFloat /\ decode [0xf9; 0x3c; 0x00] = Err EFloatShouldBeInt /\
+  decode [0xc0; 0x00] = Err ETag /\ decode [0x9f; 0xff] = Err EIndefinite /\ decode [0x00; 0x00] = Err ETrailing /\
+  decode [0x61; 0xff] = Err EUtf8 /\ decode [0xf8; 0x20] = Err ESimple /\ decode [0x1c] = Err EBadInfo.
+Proof. vm_compute. repeat split. Qed.
